@@ -159,6 +159,22 @@ pub fn c07_case(o: &mut Out, program: &[u8], refs: &[Vec<u8>], flags: u32, max_c
     o.case(&line, &format!("L={} || N={} || rom=ok prop={}", show(&legacy), show(&native), prop));
 }
 
+
+/// cost limits at which the countdown reaches exactly zero at a stage boundary of an accepted run
+/// (after the byte cost, after the generator run, after each puzzle run, after each spend's
+/// conditions), and one below each: the values where `subtract_cost`, `run_program`'s own limit
+/// (0 = unlimited in clvmr) and the condition countdown hand over to each other
+fn boundaries(c: &OwnedSpendBundleConditions) -> Vec<u64> {
+    let base = c.cost.saturating_sub(c.execution_cost).saturating_sub(c.condition_cost);
+    let gen_cost = c.execution_cost.saturating_sub(c.spends.iter().map(|s| s.execution_cost).sum::<u64>());
+    let mut v = vec![base];
+    let mut acc = base + gen_cost; v.push(acc);
+    for s in &c.spends { acc += s.execution_cost; v.push(acc); acc += s.condition_cost; v.push(acc); }
+    let mut out = vec![];
+    for b in v { out.push(b); if b > 0 { out.push(b - 1); } out.push(b + 1); }
+    out.sort(); out.dedup(); out
+}
+
 pub struct GSpend { pub parent: [u8; 32], pub puzzle: T, pub amount_atom: T, pub solution: T, pub extra: T }
 
 pub fn quoted_generator(spends: &[GSpend], term: T, ext: T) -> T {
@@ -225,8 +241,9 @@ pub fn run_c07(o: &mut Out, seed: u64, thorough: bool, replay: Option<Vec<String
         // limits around the totals of both paths
         let f = ConsensusFlags::from_bits_retain(flags);
         if r.chance(1, 3) {
-            if let Ok((_, c)) = run_block_generator2(&bytes, refs.iter(), 11_000_000_000, f, &Signature::default(), None, &TEST_CONSTANTS) {
+            if let Ok((a, c)) = run_block_generator2(&bytes, refs.iter(), 11_000_000_000, f, &Signature::default(), None, &TEST_CONSTANTS) {
                 c07_case(o, &bytes, &refs, flags, c.cost); if c.cost > 0 { c07_case(o, &bytes, &refs, flags, c.cost - 1); }
+                if r.chance(1, 3) { let oc = OwnedSpendBundleConditions::from(&a, c); if oc.spends.len() <= 6 { for b in boundaries(&oc) { c07_case(o, &bytes, &refs, flags, b); } } }
             }
             if let Ok((_, c)) = run_block_generator(&bytes, refs.iter(), 11_000_000_000, f, &Signature::default(), None, &TEST_CONSTANTS) {
                 c07_case(o, &bytes, &refs, flags, c.cost); if c.cost > 0 { c07_case(o, &bytes, &refs, flags, c.cost - 1); }
@@ -327,6 +344,17 @@ pub fn run_c08(o: &mut Out, seed: u64, thorough: bool, replay: Option<Vec<String
         if r.chance(1, 4) { flags |= F_INTERNED; }
         if r.chance(1, 4) { flags |= F_NO_UNKNOWN | F_STRICT; }
         c08_case(o, &css, flags, 11_000_000_000);
+        // limits at the stage boundaries of the accepted run (and total, total - 1)
+        if r.chance(1, 3) && css.len() <= 6 {
+            let spends: Vec<CoinSpend> = css.iter().map(|(c, p, s)| CoinSpend::new(*c, Program::from(p.clone()), Program::from(s.clone()))).collect();
+            let sb = SpendBundle::new(spends, Signature::default());
+            let mut a = make_allocator(ConsensusFlags::LIMIT_HEAP);
+            if let Ok((c, _)) = run_spendbundle(&mut a, &sb, 11_000_000_000, ConsensusFlags::from_bits_retain(flags), &TEST_CONSTANTS) {
+                let oc = OwnedSpendBundleConditions::from(&a, c);
+                let mut ls = boundaries(&oc); ls.push(oc.cost); if oc.cost > 0 { ls.push(oc.cost - 1); } ls.sort(); ls.dedup();
+                for b in ls { c08_case(o, &css, flags, b); }
+            }
+        }
     }
 }
 
@@ -336,6 +364,47 @@ fn replay_c08(o: &mut Out, l: &str) {
     let css: Vec<(Coin, Vec<u8>, Vec<u8>)> = if t[3] == "-" { vec![] } else { t[3].split(';').map(|e| { let f: Vec<&str> = e.split(':').collect();
         (Coin::new(Bytes32::new(hex::decode(f[0]).unwrap().try_into().unwrap()), Bytes32::new(hex::decode(f[1]).unwrap().try_into().unwrap()), f[2].parse().unwrap()), hex::decode(f[3]).unwrap(), hex::decode(f[4]).unwrap()) }).collect() };
     c08_case(o, &css, flags, max_cost);
+}
+
+
+/// C04 on the execution paths: accepted bundles / quoted generators re-run with the limit at every
+/// stage boundary of the countdown, at the total and one below (no INTERNED_GENERATOR: that mode's
+/// cost asymmetry is C07's recorded finding)
+pub fn replay_paths(o: &mut Out, lines: Vec<String>) {
+    for l in lines { if l.starts_with("C07 ") { replay_c07(o, &l); } else { replay_c08(o, &l); } }
+}
+
+pub fn run_limits(o: &mut Out, seed: u64, thorough: bool) {
+    let p = pools();
+    let mut r = Rng::new(seed ^ 0xc04c08);
+    let n = if thorough { 6_000 } else { 600 };
+    for _ in 0..n {
+        let mut flags = F_DONT_VALIDATE;
+        if r.chance(1, 2) { flags |= F_COST; }
+        if r.chance(1, 4) { flags |= F_LIMIT; }
+        let f = ConsensusFlags::from_bits_retain(flags);
+        if r.chance(1, 2) {
+            let css = gen_coin_spends(&mut r, &p);
+            if css.len() > 5 { continue; }
+            let spends: Vec<CoinSpend> = css.iter().map(|(c, p, s)| CoinSpend::new(*c, Program::from(p.clone()), Program::from(s.clone()))).collect();
+            let sb = SpendBundle::new(spends, Signature::default());
+            let mut a = make_allocator(ConsensusFlags::LIMIT_HEAP);
+            if let Ok((c, _)) = run_spendbundle(&mut a, &sb, 11_000_000_000, f, &TEST_CONSTANTS) {
+                let oc = OwnedSpendBundleConditions::from(&a, c);
+                let mut ls = boundaries(&oc); ls.push(oc.cost); if oc.cost > 0 { ls.push(oc.cost - 1); } ls.sort(); ls.dedup();
+                for b in ls { c08_case(o, &css, flags, b); }
+            }
+        } else {
+            let sp = gen_gspends(&mut r, &p);
+            if sp.len() > 5 { continue; }
+            let bytes = to_bytes(&quoted_generator(&sp, nil(), nil()));
+            if let Ok((a, c)) = run_block_generator2(&bytes, Vec::<Vec<u8>>::new().iter(), 11_000_000_000, f, &Signature::default(), None, &TEST_CONSTANTS) {
+                let oc = OwnedSpendBundleConditions::from(&a, c);
+                let mut ls = boundaries(&oc); ls.push(oc.cost); if oc.cost > 0 { ls.push(oc.cost - 1); } ls.sort(); ls.dedup();
+                for b in ls { c07_case(o, &bytes, &[], flags, b); }
+            }
+        }
+    }
 }
 
 // ---------------------------------------------------------------------------------------------
